@@ -162,6 +162,14 @@ def gen_plan(rng, family):
                     th.append(["submit", "value"])
             plan["threads"].append(th)
         plan["final"] = "await"
+    elif family == "killbadarg":                # C06: a forced shutdown while the feeder thread is failing unsendable tasks of the same table
+        plan["workers"] = rng.choice([1, 1, 2])
+        for _ in range(rng.randint(3, 7)):
+            # some futures carry a done-callback (it tries to submit follow-up work): run by the manager inside its failing loop, it
+            # lets the feeder thread in between two items
+            main.append([rng.choice(["submit", "submit", "submit_cb"]), rng.choice(["forever", "long", "badarg", "badarg", "bigarg", "value"])])
+        main.append(["shutdown", "kill"])
+        plan["final"] = "await"
     elif family == "cancelfail":                # C01 C02 C06: futures cancelled while they wait in the table, then the table is failed (H14)
         plan["workers"] = rng.choice([1, 1, 2])
         k = rng.randint(4, 8)                   # more jobs than workers + call-queue slots: the last ones wait in the table
@@ -305,7 +313,7 @@ def gen_plan(rng, family):
         plan["final"] = "await+submit+shutdown"
     elif family == "excs":                      # C04: exceptions that are not type(e)(*e.args): several constructor arguments, state outside args
         for _ in range(n + 1):
-            main.append(["submit", rng.choice(["raise_json", "raise_stateful", "raise_oserror", "raise", "value", "value", "sysexit"])])
+            main.append(["submit", rng.choice(["raise_json", "raise_stateful", "raise_oserror", "raise", "value", "value", "sysexit", "badarg_badrepr"])])
         if rng.random() < 0.4:
             plan["threads"].append([["submit", rng.choice(["raise_json", "value"])] for _ in range(rng.randint(1, 2))])
         plan["final"] = "await+submit+shutdown"
@@ -784,7 +792,7 @@ def analyze(plan, r):
         hang_props += ["C09"]
     if kills or fatal_kinds:
         hang_props.append("C02")
-    if fam == "killshutdown" or (fam == "cancelfail" and notes.get("shutdown") == "kill"):
+    if fam in ("killshutdown", "killbadarg") or (fam == "cancelfail" and notes.get("shutdown") == "kill"):
         hang_props.append("C06")
     if fam in ("plain", "full", "timeout", "saturate", "spawnfail") and not kills:
         hang_props += ["C04", "C03", "C08"]
